@@ -1158,7 +1158,7 @@ func main() {
 	}
 	gspec(f.Thorough())
 	rng := lib.NewRNG(f.Seed)
-	n := f.Scale(30000, 1500000)
+	n := f.Scale(20000, 600000)
 	for i := 0; i < n; i++ {
 		r := rng.Fork()
 		var fs string
